@@ -73,7 +73,13 @@ pub struct Share {
     pub ap: bool,
     pub seq: u64,
     caller: *mut u8,
-    bounce: Option<Box<[u8]>>,
+    /// bounce buffer (raw, so that the device side may write through it); freed in `retire_bounce`
+    bounce: Option<*mut u8>,
+}
+
+fn retire_bounce(p: *mut u8, len: usize) {
+    // SAFETY: `p` came from Box::<[u8]>::into_raw of a boxed slice of `len` bytes and is freed exactly once.
+    unsafe { drop(Box::from_raw(std::ptr::slice_from_raw_parts_mut(p, len))) };
 }
 
 #[derive(Clone, Debug)]
@@ -177,6 +183,11 @@ pub fn reset(mode: HalMode) -> (usize, usize) {
         for (_, reg) in std::mem::take(&mut l.regions) {
             // SAFETY: allocated by alloc_zeroed with this layout and not yet freed.
             unsafe { dealloc(reg.ptr, Layout::from_size_align(reg.len(), PAGE).unwrap()) };
+        }
+        for (_, sh) in std::mem::take(&mut l.shares) {
+            if let Some(b) = sh.bounce {
+                retire_bounce(b, sh.len);
+            }
         }
         crate::alloc_spy::clear();
         *l = Ledger::default();
@@ -291,10 +302,10 @@ impl Ledger {
                 let paddr = self.next_share;
                 // 64-byte aligned, never reused, one guard line between buffers
                 self.next_share += ((len as u64 + 63) & !63) + 64;
-                let mut b = vec![self.poison; len].into_boxed_slice();
+                let b = Box::into_raw(vec![self.poison; len].into_boxed_slice()) as *mut u8;
                 if dir != Dir::FromDev {
-                    // SAFETY: the caller of `share` promises `buffer` is valid for reads.
-                    unsafe { std::ptr::copy_nonoverlapping(caller as *const u8, b.as_mut_ptr(), len) };
+                    // SAFETY: the caller of `share` promises `buffer` is valid for reads; `b` has `len` bytes.
+                    unsafe { std::ptr::copy_nonoverlapping(caller as *const u8, b, len) };
                     self.c.bytes_to_dev += len as u64;
                 }
                 (paddr, Some(b))
@@ -344,12 +355,13 @@ impl Ledger {
             self.viol("unshare_mismatch", d);
         }
         let s = self.shares.remove(&paddr).unwrap();
-        if let Some(b) = &s.bounce {
+        if let Some(b) = s.bounce {
             if s.dir != Dir::ToDev && ok {
                 // SAFETY: the caller of `unshare` promises `buffer` is valid for writes; lengths match.
-                unsafe { std::ptr::copy_nonoverlapping(b.as_ptr(), caller, len) };
+                unsafe { std::ptr::copy_nonoverlapping(b as *const u8, caller, len) };
                 self.c.bytes_from_dev += len as u64;
             }
+            retire_bounce(b, s.len);
         }
         if self.log_shares {
             self.unshare_log.push(ShareRec { paddr, vaddr, len, dir, ap, seq: self.seq });
@@ -379,8 +391,8 @@ impl Ledger {
                 if off as usize + len > s.len {
                     return Err(format!("device access [{:#x},+{}) runs past the end of shared buffer {:#x} ({} bytes)", paddr, len, s.paddr, s.len));
                 }
-                let base = match &s.bounce {
-                    Some(b) => b.as_ptr() as *mut u8,
+                let base = match s.bounce {
+                    Some(b) => b,
                     None => s.caller,
                 };
                 // SAFETY: in bounds of the bounce buffer / caller buffer.
